@@ -103,7 +103,8 @@ class PathCtx:
         self.pc.append(f)
         self.assumptions.append((origin, f))
         if z3.is_false(f):
-            self.ex.false_assumes.append((origin, self.cur_line))
+            if not origin.startswith("callee-raises-cond"):
+                self.ex.false_assumes.append((origin, self.cur_line))
             raise PathEnd()
 
     def _feasible(self, cond):
